@@ -45,6 +45,21 @@ class Out:
         self.bytes[k] += len(s)
         self.n += 1
 
+    def attempt(self, rid, fn):
+        """run one case; an exception raised by the code under test becomes a record the law modules report (NoException)"""
+        if not self.want(rid):
+            return
+        try:
+            rec = fn()
+        except Exception as ex:  # noqa: BLE001
+            import traceback
+            tb = traceback.extract_tb(ex.__traceback__)
+            where = next((f"{t.filename.split('/src/')[-1]}:{t.lineno}" for t in reversed(tb) if "/felupe/" in t.filename), "driver")
+            self.write({"id": rid, "kind": "exception", "nt": True, "error": type(ex).__name__ + ": " + str(ex)[:200], "where": where})
+            return
+        if rec is not None:
+            self.write(rec)
+
     def close(self):
         for f in self.files:
             f.close()
